@@ -503,6 +503,26 @@ func runC14(c *Ctx) {
 					}
 				}
 				c14Chain(c, "NewLeaseSet2", nil, b2, "")
+				// the same with an options mapping as it arrives from the wire: pairs in arbitrary order
+				{
+					kvs := []KV{{[]byte("z"), r.Bytes(r.Intn(3))}, {[]byte("m.key"), r.Bytes(2)}, {[]byte("a"), nil}, {[]byte("host"), []byte("x")}}
+					for j := len(kvs) - 1; j > 0; j-- {
+						q := r.Intn(j + 1)
+						kvs[j], kvs[q] = kvs[q], kvs[j]
+					}
+					kvs = kvs[:2+r.Intn(3)]
+					if wm, rem, errs := data.ReadMapping(encodeMapping(kvs)); len(errs) == 0 && len(rem) == 0 {
+						l3, n3 := lease_set2.NewLeaseSet2(d, uint32(r.U64()), uint16(r.U64()), uint16(r.Intn(4))<<1, nil, wm, goodKeys, mk2(1+r.Intn(16)), ed25519.PrivateKey(k.priv))
+						b3 := built{ctorOK: n3 == nil, reparse: reparse2}
+						if n3 == nil {
+							b3.validOK = l3.Validate() == nil
+							var e error
+							b3.bytes, e = l3.Bytes()
+							b3.bytesOK = e == nil
+						}
+						c14Chain(c, "NewLeaseSet2(options in wire order)", nil, b3, "")
+					}
+				}
 				c.Check("valid_arguments_accepted", b2.ctorOK, "NewLeaseSet2", nil, "", fmt.Sprintf("valid tuple rejected: %v", n2))
 				// single-defect variants
 				_, d1 := lease_set2.NewLeaseSet2(d, 1, 1, 0, nil, opts, nil, mk2(1), nil)
